@@ -5,6 +5,8 @@ mod astx;
 mod c02;
 mod c03;
 mod c04;
+mod c14;
+mod c20;
 mod earley;
 mod gen;
 mod libx;
@@ -82,6 +84,8 @@ fn main() {
         "C02" => c02::run(&ctx),
         "C03" => c03::run(&ctx),
         "C04" => c04::run(&ctx),
+        "C14" => c14::run(&ctx),
+        "C20" => c20::run(&ctx),
         _ => {
             eprintln!("unknown property id {id}");
             2
